@@ -7,7 +7,7 @@ from vlib.rat import parse
 from checks import solvefam as sf
 
 DEFINITIVE = {1, 2, 3}
-FAMS = ["small-rand", "small-int", "degenerate", "illcond", "thin", "planted-opt", "planted-inf", "tiny", "planted-unb", "knife"]
+FAMS = ["small-rand", "small-int", "degenerate", "illcond", "thin", "planted-opt", "planted-inf", "tiny", "planted-unb", "knife", "boxed"]
 
 
 def all_solves(script, events):
